@@ -105,6 +105,22 @@ add(BAL, [b"", b"ab", b"aabb", b"aabbab", b"aab", b"ba"])
 add(('grammar', [("main", ALT(SEQ(CAP(S(b"a")), ('ref', 'main')), POS))]), [b"aaab"])
 add(('grammar', [("main", SEQ(S(b"a"), ('grammar', [("main", ALT(SEQ(S(b"b"), ('ref', 'main')), ('ref', 'q')))]))), ("q", CAP(('int', 1)))]), [b"abbc", b"abb"])
 
+# lexical scoping of rule names across nested grammars (seeded mutation C12-1) and the default grammar
+R = lambda n: ('ref', n)
+G = lambda *rules: ('grammar', list(rules))
+add(G(("a", S(b"abc")), ("c", SEQ(R("a"))), ("main", SEQ(R("c"), G(("a", S(b"def")), ("main", SEQ(R("c"), S(b"!")))), ('int', -1)))),
+    [b"abcabc!", b"abcdef!", b"abc"])
+add(G(("a", S(b"x")), ("c", CAP(('some', R("a")))), ("main", SEQ(G(("a", S(b"y")), ("main", SEQ(R("c"), S(b",")))), CAP(R("a"))))),
+    [b"xx,x", b"yy,x", b"yy,y", b"x,x"])
+add(G(("open", S(b"(")), ("close", S(b")")), ("paren", SEQ(R("open"), ('any', R("paren")), R("close"))),
+      ("main", SEQ(CAP(R("paren")), G(("open", S(b"[")), ("close", S(b"]")), ("main", CAP(R("paren")))), ('int', -1)))),
+    [b"(())(()())", b"(())[[][]]", b"()()", b"()[]"])
+add(G(("x", S(b"a")), ("c", R("x")), ("main", SEQ(G(("x", S(b"b")), ("main", SEQ(R("x"), CAP(R("c"))))), POS))), [b"ba", b"bb", b"ab"])
+add(G(("d", S(b"x")), ("main", CAP(R("d+")))), [b"xx1", b"12"])
+add(G(("main", SEQ(CAP(R("d+")), G(("d", S(b"x")), ("main", CAP(R("d+"))))))), [b"12xx", b"1212", b"xx"])
+add(G(("a", S(b"1")), ("main", SEQ(CAP(R("a*")), CAP(R("w")), ('opt', CAP(R("A")))))), [b"11a", b"ab", b"1"])
+add(SEQ(CAP(R("S+")), R("s"), CAP(R("D*"))), [b"ab 1", b"a\nbc", b" "])
+
 out = os.path.join(os.path.dirname(os.path.dirname(HERE)), "corpus", "C12", "targeted.json")
 with open(out, "w") as f:
     json.dump([case_to_json(c) for c in cases], f, indent=0)
